@@ -55,7 +55,8 @@ def gen_case(rng, pool=None):
         elif r < 0.45 and not t_only:
             evs.append({"base": ("call", i, 12, rng.randrange(7))})
         else:
-            evs.append({"base": ("call", i, rng.choice(pool), rng.randrange(8))})
+            # 36 / 37: the hidden-API trait HD (required method with a registered function, provided method whose body calls it)
+            evs.append({"base": ("call", i, rng.choice(pool + ([] if t_only else [36, 37, 36])), rng.randrange(8))})
         if rng.random() < 0.06:
             evs.insert(len(evs) - 1, {"base": ("arm", 1)})
     if ninst == 2:
